@@ -37,6 +37,22 @@ the wavelength float) and compares.  Bounds (eps = 2^-52, k = 2 pi / lambda):
 B matrices with condition number 1e6 exceed TLC's 32-bit integers (stated limit): TLC decides the
 small integer B, the harness rescales columns by powers of ten and solves exactly with Python
 rationals using the same Cramer formula.
+
+Hardening round (HARDENING.md items 1, 2, 5-11):
+4. Operand forms of the Q kernels (QVecDefs!QForms, checked by Trace_QVec): every other group of cases uses a
+   non-default form - integer-typed (int64 / int32) and float32 wavelengths (float32 judged in units of
+   2^-24), wavelength in nm (Q in 1/nm), 2-d in both dim orders and 0-d, the two beams in different length
+   units, Qy handed to the reassembly with its dims in the other order; operands compared bit-for-bit after
+   the calls.
+5. hkl: Q in 1/nm with B in 1/angstrom (hkl carries the scale in its unit: value * scale is judged, +2 units
+   for the two extra roundings); the same UB object again with ANOTHER sample rotation (model: variable rused,
+   invariant NoHistory, negative control Neg_QVecHkl_stale_rotation); R, U, B as one matrix per peak.
+6. The coordinate graph conversion.graph.tof.elastic_hkl on a data array (positions, wavelength, U, B, R as
+   coordinates), intermediate Qx/Qy/Qz, Q_vec, ub_matrix, hkl_vec, h/k/l kept and judged; lambda * hkl is the
+   exact rational vector QVecDefs!HklTimesLambda exported by TLC ("graph" cases, invariant GraphRoute).
+7. Split / reassembly: NaN payloads, strided, 2-d and transposed operands, scaled dimensionless units.
+8. Second use: a sample of the hkl and Q groups is evaluated again at the end in reverse order.
+Malformed results (non-finite U*B, wrong number of vectors, unexpected dims) are violations with their own key.
 """
 
 from __future__ import annotations
@@ -95,7 +111,30 @@ def _q_reference(b1, b2, quat):
     return {'q': q, 'rq': rq, 'r1': r1, 'r2': r2, 'four_sin2': 2 * (1 - cos), 'rot': rot, 'n': n}
 
 
-def _replay_q(ctx, cases, events, stats):
+# operand forms of the Q kernels (QVecDefs!QForms); every other group of cases uses the first (default) one
+Q_FORMS = [
+    {'dtype': 'float64', 'unit': 'angstrom', 'layout': 'outer', 'beam_units': 'same', 'element_dims': 'same_order'},
+    {'dtype': 'int64', 'unit': 'angstrom', 'layout': 'outer', 'beam_units': 'mixed', 'element_dims': 'mixed_order'},
+    {'dtype': 'float64', 'unit': 'nm', 'layout': 'grid', 'beam_units': 'same', 'element_dims': 'same_order'},
+    {'dtype': 'float32', 'unit': 'angstrom', 'layout': 'grid_transposed', 'beam_units': 'mixed', 'element_dims': 'same_order'},
+    {'dtype': 'int32', 'unit': 'nm', 'layout': 'scalar', 'beam_units': 'same', 'element_dims': 'same_order'},
+    {'dtype': 'float64', 'unit': 'angstrom', 'layout': 'scalar', 'beam_units': 'mixed', 'element_dims': 'same_order'},
+    {'dtype': 'float64', 'unit': 'angstrom', 'layout': 'grid_transposed', 'beam_units': 'same', 'element_dims': 'mixed_order'},
+    {'dtype': 'int64', 'unit': 'nm', 'layout': 'grid', 'beam_units': 'same', 'element_dims': 'mixed_order'},
+]
+# wavelengths inside 0.01..100 angstrom in the unit / dtype of the form (all exactly representable in the dtype)
+LAMS_OF = {('float64', 'angstrom'): LAMS, ('float64', 'nm'): [0.001, 0.037, 0.1, 0.45, 10.0],
+           ('int64', 'angstrom'): [1, 3, 7, 100], ('int64', 'nm'): [1, 2, 5, 10],
+           ('int32', 'angstrom'): [1, 2, 5, 100], ('int32', 'nm'): [1, 3, 10],
+           ('float32', 'angstrom'): [0.015625, 0.375, 1.0, 4.5, 100.0]}
+F32 = 2.0 ** -24
+
+
+def _bits(v):
+    return np.array(v.values, copy=True).tobytes()
+
+
+def _replay_q(ctx, cases, events, stats, only_groups=None, use='first'):
     from scippneutron.conversion import beamline as bl
     from scippneutron.conversion import tof
 
@@ -103,9 +142,17 @@ def _replay_q(ctx, cases, events, stats):
     groups = {}
     for c in cases:
         groups.setdefault((tuple(c['b1']), tuple(c['quat'])), []).append(c)
-    lam = sc.array(dims=['wavelength'], values=LAMS, unit='angstrom')
-    kk = [2 * mpmath.pi / G.to_mpf(Fraction(x)) for x in LAMS]  # 1/angstrom
-    for gi, ((b1, quat), items) in enumerate(sorted(groups.items())):
+    order = list(enumerate(sorted(groups.items())))
+    if only_groups is not None:
+        order = [order[i] for i in only_groups]
+    for gi, ((b1, quat), items) in order:
+        form = Q_FORMS[0] if gi % 2 == 0 else Q_FORMS[1 + (gi // 2) % (len(Q_FORMS) - 1)]
+        lams_all = LAMS_OF[form['dtype'], form['unit']]
+        lams = [lams_all[gi % len(lams_all)]] if form['layout'] == 'scalar' else lams_all
+        nd, nl = len(items), len(lams)
+        f32 = form['dtype'] == 'float32'
+        eu = F32 if f32 else HALF  # error unit: float32 wavelengths are judged at float32 accuracy
+        kk = [2 * mpmath.pi / G.to_mpf(Fraction(x)) for x in lams]  # 1/unit
         refs = [_q_reference(b1, tuple(c['b2']), quat) for c in items]
         b2s = np.array([c['b2'] for c in items], dtype='float64')
         r2s = np.array([r['r2'] for r in refs], dtype='float64')
@@ -114,73 +161,117 @@ def _replay_q(ctx, cases, events, stats):
         nq = math.sqrt(refs[0]['n'])
         rvar = sc.spatial.rotation(value=np.array([x, y, z, w], dtype='float64') / nq)
         unit_b = ('m', 'mm', 'angstrom')[gi % 3]
+        unit_s = unit_b if form['beam_units'] == 'same' else ('mm', 'm', 'm')[gi % 3]
+        lv = np.array(lams, dtype=form['dtype'])
+        if form['layout'] == 'outer':
+            lam = sc.array(dims=['wavelength'], values=lv, unit=form['unit'], dtype=form['dtype'])
+        elif form['layout'] == 'grid':
+            lam = sc.array(dims=['det', 'wavelength'], values=np.tile(lv, (nd, 1)), unit=form['unit'], dtype=form['dtype'])
+        elif form['layout'] == 'grid_transposed':
+            lam = sc.array(dims=['wavelength', 'det'], values=np.tile(lv[:, None], (1, nd)), unit=form['unit'], dtype=form['dtype'])
+        else:
+            lam = sc.scalar(lv[0], unit=form['unit'], dtype=form['dtype'])
         res = {}
+        kept = False
         try:
+            operands = [lam]
             for si, (s1, s2) in enumerate(SCALINGS):
                 ib = sc.vector(np.array(b1, dtype='float64') * s1, unit=unit_b)
-                sb = sc.vectors(dims=['det'], values=b2s * s2, unit=unit_b)
+                sb = sc.vectors(dims=['det'], values=b2s * s2, unit=unit_s)
+                operands += [ib, sb]
+                before = [_bits(v) for v in (lam, ib, sb)]
                 res['el', si] = tof.Q_elements_from_wavelength(wavelength=lam, incident_beam=ib, scattered_beam=sb)
+                kept = (si == 0 or kept) and before == [_bits(v) for v in (lam, ib, sb)]
             el = res['el', 0]
-            qv = tof.Q_vec_from_Q_elements(Qx=el['Qx'], Qy=el['Qy'], Qz=el['Qz'])
+            qy = el['Qy']
+            if form['element_dims'] == 'mixed_order' and qy.ndim == 2:
+                qy = qy.transpose().copy()  # same elements, dims listed in the other order
+            qv = tof.Q_vec_from_Q_elements(Qx=el['Qx'], Qy=qy, Qz=el['Qz'])
             ibr = sc.vector(r1, unit=unit_b)
-            sbr = sc.vectors(dims=['det'], values=r2s, unit=unit_b)
+            sbr = sc.vectors(dims=['det'], values=r2s, unit=unit_s)
             elr = tof.Q_elements_from_wavelength(wavelength=lam, incident_beam=ibr, scattered_beam=sbr)
             qvr = tof.Q_vec_from_Q_elements(Qx=elr['Qx'], Qy=elr['Qy'], Qz=elr['Qz'])
             qrot = rvar * qv
             qnorm = sc.norm(qv)
             ib0 = sc.vector(np.array(b1, dtype='float64'), unit=unit_b)
-            sb0 = sc.vectors(dims=['det'], values=b2s, unit=unit_b)
+            sb0 = sc.vectors(dims=['det'], values=b2s, unit=unit_s)
             tt = bl.two_theta(incident_beam=ib0, scattered_beam=sb0)
-            qs = tof.Q_from_wavelength(wavelength=lam, two_theta=tt)
+            qs = None if f32 else tof.Q_from_wavelength(wavelength=lam, two_theta=tt)
             returned, exc = True, None
         except Exception as e:  # noqa: BLE001
             returned, exc = False, repr(e)
-            ctx.violation(f'Q-vector kernels raised {type(e).__name__}', {'exc': exc, 'b1': b1, 'quat': quat})
+            ctx.violation(f'Q-vector kernels raised {type(e).__name__}' + ('' if gi % 2 == 0 else ' (non-default operand form)'),
+                          {'exc': exc, 'b1': b1, 'quat': quat, 'form': form})
 
-        def comp(d, name):
-            return d[name].transpose(['det', 'wavelength']).values
+        def grid(v, vec=False):
+            """values as [det, wavelength] (+ component) whatever the order / number of dims of the result"""
+            dims = [d for d in ('det', 'wavelength') if d in v.dims]
+            if set(v.dims) - {'det', 'wavelength'} or 'det' not in dims:
+                raise ValueError(f'result has dims {v.dims}')
+            a = np.asarray(v.transpose(dims).values if len(dims) > 1 else v.values)
+            if 'wavelength' not in dims:
+                if nl != 1:
+                    raise ValueError(f'result has dims {v.dims} for {nl} wavelengths')
+                a = a.reshape((nd, 1, 3) if vec else (nd, 1))
+            if a.shape != ((nd, nl, 3) if vec else (nd, nl)):
+                raise ValueError(f'result of shape {a.shape}')
+            return a
 
         if returned:
-            want_unit = sc.Unit('1/angstrom')
-            unit_ok = all(el[n].unit == want_unit and el[n].dtype == sc.DType.float64 for n in ('Qx', 'Qy', 'Qz')) \
-                and qv.unit == want_unit and qv.dtype == sc.DType.vector3 and qs.unit == want_unit
-            E = [[comp(res['el', si], n) for n in ('Qx', 'Qy', 'Qz')] for si in range(len(SCALINGS))]
-            ER = [comp(elr, n) for n in ('Qx', 'Qy', 'Qz')]
-            QV = qv.transpose(['det', 'wavelength']).values
-            QVR = qvr.transpose(['det', 'wavelength']).values
-            QROT = qrot.transpose(['det', 'wavelength']).values
-            QN = qnorm.transpose(['det', 'wavelength']).values
-            QS = qs.transpose(['det', 'wavelength']).values
+            try:
+                want_unit = sc.Unit('1/' + form['unit'])
+                ok_dt = (sc.DType.float64, sc.DType.float32) if f32 else (sc.DType.float64,)
+                unit_ok = all(el[n].unit == want_unit and el[n].dtype in ok_dt for n in ('Qx', 'Qy', 'Qz')) \
+                    and qv.unit == want_unit and qv.dtype == sc.DType.vector3 and (qs is None or qs.unit == want_unit)
+                E = [[grid(res['el', si][n]) for n in ('Qx', 'Qy', 'Qz')] for si in range(len(SCALINGS))]
+                ER = [grid(elr[n]) for n in ('Qx', 'Qy', 'Qz')]
+                QV, QVR, QROT = grid(qv, True), grid(qvr, True), grid(qrot, True)
+                QN = grid(qnorm)
+                QS = grid(qs) if qs is not None else None
+            except Exception as e:  # noqa: BLE001
+                returned = False
+                ctx.violation('Q-vector kernels returned a result of unexpected dims / shape'
+                              + ('' if gi % 2 == 0 else ' (non-default operand form)'), {'exc': repr(e), 'form': form})
         for i, (c, ref) in enumerate(zip(items, refs)):
             o = {'returned': returned, 'unit_ok': False, 'e_q': 0, 'e_len': 0, 'e_rot': 0, 'e_cov': 0, 'e_norm': 0,
-                 'e_scal': 0, 'bits_ok': False}
+                 'e_scal': 0, 'bits_ok': False, 'inputs_kept': bool(kept)}
             if returned:
                 o['unit_ok'] = bool(unit_ok)
                 qm = G.mp_vec(ref['q'])
                 rqm = G.mp_vec(ref['rq'])
                 nrm = mpmath.sqrt(G.to_mpf(ref['four_sin2']))
                 bits = True
+
+                def ua(got, want, k):
+                    """|got - want| / (eu * k) rounded up; a non-finite result is 2^30 units"""
+                    g = float(got)
+                    return G.units_of((G.mpf(g) - want) / k, eu) if math.isfinite(g) else 2**30
+
                 for j, k in enumerate(kk):
                     for a in range(3):
                         want = k * qm[a]
-                        o['e_q'] = max(o['e_q'], _units_abs(G.mpf(float(E[0][a][i][j])) - want, k))
+                        o['e_q'] = max(o['e_q'], ua(E[0][a][i][j], want, k))
                         for si in range(1, len(SCALINGS)):
-                            o['e_len'] = max(o['e_len'], _units_abs(G.mpf(float(E[si][a][i][j])) - want, k))
-                        o['e_rot'] = max(o['e_rot'], _units_abs(G.mpf(float(ER[a][i][j])) - k * rqm[a], k))
-                        o['e_cov'] = max(o['e_cov'], _units_abs(G.mpf(float(QROT[i][j][a])) - G.mpf(float(QVR[i][j][a])), k))
+                            o['e_len'] = max(o['e_len'], ua(E[si][a][i][j], want, k))
+                        o['e_rot'] = max(o['e_rot'], ua(ER[a][i][j], k * rqm[a], k))
+                        o['e_cov'] = max(o['e_cov'], ua(QROT[i][j][a], G.mpf(float(QVR[i][j][a])), k)
+                                         if math.isfinite(float(QVR[i][j][a])) else 2**30)
                         bits = bits and (float(QV[i][j][a]).hex() == float(E[0][a][i][j]).hex())
-                    o['e_norm'] = max(o['e_norm'], _units_abs(G.mpf(float(QN[i][j])) - k * nrm, k))
-                    o['e_scal'] = max(o['e_scal'], _units_abs(G.mpf(float(QS[i][j])) - G.mpf(float(QN[i][j])), k),
-                                      _units_abs(G.mpf(float(QS[i][j])) - k * nrm, k))
+                    o['e_norm'] = max(o['e_norm'], ua(QN[i][j], k * nrm, k))
+                    if QS is not None:
+                        o['e_scal'] = max(o['e_scal'], ua(QS[i][j], G.mpf(float(QN[i][j])), k) if math.isfinite(float(QN[i][j])) else 2**30,
+                                          ua(QS[i][j], k * nrm, k))
                 o['bits_ok'] = bool(bits)
-                for key in ('e_q', 'e_len', 'e_rot', 'e_cov', 'e_norm', 'e_scal'):
-                    stats[key] = max(stats.get(key, 0), o[key])
+                if gi % 2 == 0:
+                    for key in ('e_q', 'e_len', 'e_rot', 'e_cov', 'e_norm', 'e_scal'):
+                        stats[key] = max(stats.get(key, 0), o[key])
             events.append({'ev': 'q', 'tid': len(events), 'b1': list(b1), 'n1': c['n1'], 'b2': c['b2'], 'n2': c['n2'],
-                           'quat': list(quat),
+                           'quat': list(quat), 'form': form, 'use': use,
                            'want': {'q': _rvec(ref['q']), 'rq': _rvec(ref['rq']),
                                     'four_sin2': G.reduce_frac(ref['four_sin2'].numerator, ref['four_sin2'].denominator)},
                            'o': o, 'unit': unit_b})
-            ctx.case(nontrivial_id=repr(('q', b1, tuple(c['b2']), quat)) if returned else None)
+            ctx.case(nontrivial_id=repr(('q', b1, tuple(c['b2']), quat, use)) if returned else None)
+    return len(groups)
 
 
 # ------------------------------------------------------------------------------ hkl
@@ -199,43 +290,82 @@ def _solve_exact(A, v):
     return tuple(x / d for x in w)
 
 
-def _replay_hkl(ctx, cases, events, stats, thorough):
+COL_SCALINGS = [(0, 0, 0), (3, 0, -3), (-2, 1, 2), (1, 0, -1), (-3, -3, -3), (-4, -4, -4), (3, 3, 3)]
+COL_SCALINGS_THOROUGH = COL_SCALINGS + [(0, -3, 2), (-5, -5, -5), (-2, -3, -4)]
+OTHER_ROTATIONS = [(1, 0, 0, 0), (1, 1, 0, 0), (1, 1, 1, 1), (2, 1, 0, 0), (1, 1, 1, 0), (0, 1, -1, 2)]  # = QVecCases!Q6
+
+
+def _rot_var(q, var):
+    m, n = G.quat_mat(q)
+    if var == 'rotation3':
+        return sc.spatial.rotation(value=np.array([q[1], q[2], q[3], q[0]], dtype='float64') / math.sqrt(n))
+    return _mat_var(np.array(m, dtype='float64') / n)
+
+
+def _hkl_error(hv_row, Aex, q_exact, cond):
+    """forward error of one hkl row in units of eps * cond * |hkl| against the exact rational solution of
+    (R_f UB_f) x = Q / (2 pi) for the float matrices actually used; Q exact rational in 1/angstrom"""
+    two_pi = 2 * mpmath.pi
+    xq = _solve_exact(Aex, q_exact)
+    xm = [G.to_mpf(v) / two_pi for v in xq]
+    nx = mpmath.sqrt(sum(v * v for v in xm))
+    if not all(math.isfinite(float(v)) for v in hv_row):
+        return 2**30
+    err = mpmath.sqrt(sum((G.mpf(float(hv_row[a])) - xm[a]) ** 2 for a in range(3)))
+    if nx == 0:
+        return 0 if err == 0 else 2**30
+    return G.units_of(err / (nx * cond), 2.0 ** -52)
+
+
+def _q_for(Aex, h):
+    """2 pi A h rounded once to floats (1/angstrom)"""
+    two_pi = 2 * mpmath.pi
+    v = G.matvec(Aex, tuple(Fraction(x) for x in h))
+    return [float(two_pi * G.to_mpf(x)) for x in v]
+
+
+def _replay_hkl(ctx, cases, events, stats, thorough, only_groups=None, use='first'):
     from scippneutron.conversion import tof
 
     # column-wise powers of ten (condition numbers up to 1e6) and uniform ones: a uniformly small / large B
     # (large / small unit cell) has a tiny / huge determinant at an unchanged condition number, so any
     # absolute threshold on det(UB) shows up
-    col_scalings = [(0, 0, 0), (3, 0, -3), (-2, 1, 2), (1, 0, -1), (-3, -3, -3), (-4, -4, -4), (3, 3, 3)]
-    if thorough:
-        col_scalings += [(0, -3, 2), (-5, -5, -5), (-2, -3, -4)]
-    two_pi = 2 * mpmath.pi
+    col_scalings = COL_SCALINGS_THOROUGH if thorough else COL_SCALINGS
     # group by (qr, qu, B): hkl become an array
     groups = {}
     for c in cases:
         groups.setdefault((tuple(c['qr']), tuple(c['qu']), json.dumps(c['B'])), []).append(c)
-    for gi, ((qr, qu, bj), items) in enumerate(sorted(groups.items())):
+    order = list(enumerate(sorted(groups.items())))
+    if only_groups is not None:
+        order = [order[i] for i in only_groups]
+    for gi, ((qr, qu, bj), items) in order:
         B = json.loads(bj)
         mr, nr = G.quat_mat(qr)
         mu, nu = G.quat_mat(qu)
         ub_int = G.matmul(mu, B)
-        A_int = G.matmul(mr, ub_int)
-        D = nr * nu
         hs = [tuple(c['h']) for c in items]
-        want = {'A': [list(r) for r in A_int], 'D': D, 'ub': [list(r) for r in ub_int]}
+
+        def want_for(q_rot):
+            m, n = G.quat_mat(q_rot)
+            A = G.matmul(m, ub_int)
+            return A, {'A': [list(r) for r in A], 'D': n * nu, 'ub': [list(r) for r in ub_int]}
+
+        A_int, want = want_for(qr)
         for vi, var in enumerate(('matrix', 'rotation3')):
             exps = col_scalings[(gi + vi) % len(col_scalings)]
+            # Q in 1/angstrom or (every third group) in 1/nm while B stays in 1/angstrom: hkl then carries the
+            # scale 0.1 in its unit and value * scale is the index
+            q_unit = '1/nm' if (gi + vi) % 3 == 1 else '1/angstrom'
+            q_scale = 10.0 if q_unit == '1/nm' else 1.0
+            extra = 2 if q_unit == '1/nm' else 0  # two more roundings: the unit scale applied by scipp
             # floats actually passed
             Bf = np.array([[B[r][c_] * 10.0 ** exps[c_] for c_ in range(3)] for r in range(3)])
             Uf = np.array(mu, dtype='float64') / nu
             Rf = np.array(mr, dtype='float64') / nr
             UBf_exact = G.matmul(_frac_mat(Uf), _frac_mat(Bf))
-            o_common = {}
+            other = None
             try:
-                if var == 'matrix':
-                    u_var, r_var = _mat_var(Uf), _mat_var(Rf)
-                else:
-                    u_var = sc.spatial.rotation(value=np.array([qu[1], qu[2], qu[3], qu[0]], dtype='float64') / math.sqrt(nu))
-                    r_var = sc.spatial.rotation(value=np.array([qr[1], qr[2], qr[3], qr[0]], dtype='float64') / math.sqrt(nr))
+                u_var, r_var = _rot_var(qu, var), _rot_var(qr, var)
                 b_var = _mat_var(Bf, unit='1/angstrom')
                 ub_var = tof.ub_matrix_from_u_and_b(u_matrix=u_var, b_matrix=b_var)
                 ubv = np.array(ub_var.value, dtype='float64')
@@ -248,7 +378,10 @@ def _replay_hkl(ctx, cases, events, stats, thorough):
                     for c_ in range(3):
                         ref = G.to_mpf(UBf_exact[r][c_]) if var == 'matrix' else \
                             sum(G.mpf(mu[r][k]) / nu * G.mpf(float(Bf[k][c_])) for k in range(3))
-                        e_ub = max(e_ub, G.units_of((G.mpf(float(ubv[r][c_])) - ref) / colsum[c_], 2.0 ** -52))
+                        got = float(ubv[r][c_])
+                        e_ub = max(e_ub, G.units_of((G.mpf(got) - ref) / colsum[c_], 2.0 ** -52) if math.isfinite(got) else 2**30)
+                if e_ub >= 2**30:
+                    raise _NonFinite('ub_matrix_from_u_and_b returned a non-finite entry')
                 # small dyadic U (N in {1,2,4}) times unscaled integer B: every product and partial sum is
                 # exactly representable, so U*B must be bit-for-bit the exact product
                 ub_exact_required = var == 'matrix' and nu in (1, 2, 4) and tuple(exps) == (0, 0, 0)
@@ -256,90 +389,318 @@ def _replay_hkl(ctx, cases, events, stats, thorough):
                     if ub_exact_required else True
                 # the Q vectors: exact 2 pi R U B h for the floats of UB and R, rounded once
                 ubf = _frac_mat(ubv)
-                rfm = _frac_mat(Rf)
-                Aex = G.matmul(rfm, ubf)
-                qf = []
-                for h in hs:
-                    v = G.matvec(Aex, tuple(Fraction(x) for x in h))
-                    qf.append([float(two_pi * G.to_mpf(x)) for x in v])
-                q_var = sc.vectors(dims=['peak'], values=np.array(qf), unit='1/angstrom')
+                Aex = G.matmul(_frac_mat(Rf), ubf)
+                qf = [[x * q_scale for x in _q_for(Aex, h)] for h in hs]
+                q_var = sc.vectors(dims=['peak'], values=np.array(qf), unit=q_unit)
+                before = [_bits(v) for v in (q_var, ub_var, r_var)]
                 hkl = tof.hkl_vec_from_Q_vec(Q_vec=q_var, ub_matrix=ub_var, sample_rotation=r_var)
-                hv = np.asarray(hkl.values).reshape(-1, 3)
+                kept = before == [_bits(v) for v in (q_var, ub_var, r_var)]
+                raw = np.asarray(hkl.values).reshape(-1, 3)
+                hv = np.asarray(hkl.to(unit='dimensionless').values).reshape(-1, 3)
+                if hv.shape != (len(hs), 3):
+                    raise _NonFinite(f'hkl_vec_from_Q_vec returned {hv.shape[0]} vectors for {len(hs)} peaks')
                 parts = tof.hkl_elements_from_hkl_vec(hkl_vec=hkl)
-                split_ok = all(np.array_equal(parts[n].values.view('int64'), np.ascontiguousarray(hv[:, a]).view('int64'))
+                split_ok = all(np.array_equal(np.ascontiguousarray(parts[n].values).view('int64'),
+                                              np.ascontiguousarray(raw[:, a]).view('int64')) and parts[n].unit == hkl.unit
                                for a, n in enumerate(('h', 'k', 'l')))
                 # scalar operand
-                h0 = tof.hkl_vec_from_Q_vec(Q_vec=sc.vector(qf[0], unit='1/angstrom'), ub_matrix=ub_var,
-                                            sample_rotation=r_var)
-                scalar_same = np.array_equal(np.asarray(h0.value), hv[0]) or bool(np.allclose(np.asarray(h0.value), hv[0], rtol=1e-15, atol=0))
-                unit_ok = hkl.unit == sc.Unit('dimensionless') and hkl.dtype == sc.DType.vector3 and \
-                    ub_var.unit == sc.Unit('1/angstrom')
+                h0 = tof.hkl_vec_from_Q_vec(Q_vec=sc.vector(qf[0], unit=q_unit), ub_matrix=ub_var, sample_rotation=r_var)
+                h0v = np.asarray(h0.to(unit='dimensionless').value)
+                scalar_same = np.array_equal(h0v, hv[0]) or bool(np.allclose(h0v, hv[0], rtol=1e-15, atol=0))
+                # any unit that converts to 'dimensionless' is accepted for hkl (the conversion above succeeded)
+                unit_ok = hkl.dtype == sc.DType.vector3 and ub_var.unit == sc.Unit('1/angstrom')
                 cond = float(np.linalg.cond(Rf @ ubv))
+                # the same UB object once more with ANOTHER goniometer rotation (a rotating crystal): what was
+                # derived from UB in the first call must not be mistaken for something derived from R * UB
+                q2 = next(q for q in OTHER_ROTATIONS[gi % len(OTHER_ROTATIONS):] + OTHER_ROTATIONS if tuple(q) != tuple(qr))
+                m2, n2 = G.quat_mat(q2)
+                R2f = np.array(m2, dtype='float64') / n2
+                A2ex = G.matmul(_frac_mat(R2f), ubf)
+                h_big = max(hs, key=lambda t: sum(x * x for x in t))
+                q2f = [x * q_scale for x in _q_for(A2ex, h_big)]
+                h2 = tof.hkl_vec_from_Q_vec(Q_vec=sc.vector(q2f, unit=q_unit), ub_matrix=ub_var, sample_rotation=_rot_var(q2, var))
+                cond2 = float(np.linalg.cond(R2f @ ubv))
+                other = {'q2': q2, 'A2ex': A2ex, 'q2f': q2f, 'h2v': np.asarray(h2.to(unit='dimensionless').value).reshape(3),
+                         'cond2': cond2, 'unit_ok': h2.unit == hkl.unit}
                 returned = True
             except Exception as e:  # noqa: BLE001
                 returned = False
-                ctx.violation(f'hkl kernels raised {type(e).__name__} ({var})', {'exc': repr(e), 'qr': qr, 'qu': qu, 'B': B})
+                ctx.violation(f'hkl kernels raised {type(e).__name__} ({var})' if not isinstance(e, _NonFinite)
+                              else f'hkl kernels returned a malformed result ({var})',
+                              {'exc': repr(e), 'qr': qr, 'qu': qu, 'B': B, 'exps': exps, 'q_unit': q_unit})
             for i, (c, h) in enumerate(zip(items, hs)):
-                o = {'returned': returned, 'unit_ok': False, 'e_ub': 0, 'ub_bits_ok': False, 'e_hkl': 0, 'split_ok': False}
+                o = {'returned': returned, 'unit_ok': False, 'e_ub': 0, 'ub_bits_ok': False, 'e_hkl': 0, 'split_ok': False,
+                     'inputs_kept': False}
                 if returned:
                     o['unit_ok'] = bool(unit_ok)
                     o['e_ub'] = int(e_ub)
                     o['ub_bits_ok'] = bool(ub_bits_ok)
                     o['split_ok'] = bool(split_ok and (i != 0 or scalar_same))
+                    o['inputs_kept'] = bool(kept)
                     if cond <= 2e6:
                         # exact solution for the floats passed: x = (R_f UB_f)^-1 Q_f / (2 pi)
-                        xq = _solve_exact(Aex, tuple(Fraction(v) for v in qf[i]))
-                        xm = [G.to_mpf(v) / two_pi for v in xq]
-                        nx = mpmath.sqrt(sum(v * v for v in xm))
-                        err = mpmath.sqrt(sum((G.mpf(float(hv[i][a])) - xm[a]) ** 2 for a in range(3)))
-                        if nx == 0:
-                            o['e_hkl'] = 0 if err == 0 else 2**30
-                        else:
-                            o['e_hkl'] = G.units_of(err / (nx * cond), 2.0 ** -52)
-                        stats['e_hkl'] = max(stats.get('e_hkl', 0), o['e_hkl'])
-                        stats['cond_max'] = max(stats.get('cond_max', 0), cond)
+                        o['e_hkl'] = _hkl_error(hv[i], Aex, tuple(Fraction(v) / Fraction(q_scale) for v in qf[i]), cond)
+                        if use == 'first':
+                            stats['e_hkl'] = max(stats.get('e_hkl', 0), o['e_hkl'])
+                            stats['cond_max'] = max(stats.get('cond_max', 0), cond)
                     stats['e_ub'] = max(stats.get('e_ub', 0), o['e_ub'])
                 qlab = [int(x) for x in G.matvec(A_int, h)]
                 events.append({'ev': 'hkl', 'tid': len(events), 'qr': list(qr), 'qu': list(qu), 'B': B, 'h': list(h),
-                               'var': var, 'exps': list(exps), 'want': dict(want, qlab=qlab), 'o': o})
-                ctx.case(nontrivial_id=repr(('hkl', qr, qu, bj, h, var)) if returned else None)
+                               'var': var, 'quat_operands': var == 'rotation3', 'extra': extra, 'use': use, 'q_unit': q_unit,
+                               'exps': list(exps), 'want': dict(want, qlab=qlab), 'o': o})
+                ctx.case(nontrivial_id=repr(('hkl', qr, qu, bj, h, var, use)) if returned else None)
+            if returned and other is not None and use == 'first':
+                A2_int, want2 = want_for(other['q2'])
+                h = max(hs, key=lambda t: sum(x * x for x in t))
+                o = {'returned': True, 'unit_ok': bool(other['unit_ok']), 'e_ub': 0, 'ub_bits_ok': True, 'e_hkl': 0,
+                     'split_ok': True, 'inputs_kept': True}
+                if other['cond2'] <= 2e6:
+                    o['e_hkl'] = _hkl_error(other['h2v'], other['A2ex'], tuple(Fraction(v) / Fraction(q_scale) for v in other['q2f']),
+                                            other['cond2'])
+                events.append({'ev': 'hkl', 'tid': len(events), 'qr': list(other['q2']), 'qu': list(qu), 'B': B, 'h': list(h),
+                               'var': 'same_ub_other_rotation', 'quat_operands': var == 'rotation3', 'extra': extra,
+                               'use': use, 'q_unit': q_unit, 'exps': list(exps),
+                               'want': dict(want2, qlab=[int(x) for x in G.matvec(A2_int, h)]), 'o': o})
+                ctx.case(nontrivial_id=repr(('hkl-other-rotation', qr, qu, bj, var)))
+    return len(groups)
 
 
-def _replay_split(ctx, events, n):
+class _NonFinite(Exception):
+    """a malformed (non-finite, wrongly shaped) result of the implementation noticed by the driver"""
+
+
+def _replay_hkl_arrays(ctx, cases, events, stats, n):
+    """R, U and B as one matrix PER PEAK (arrays of transforms aligned with the Q vectors): a seeded sample of
+    the exported (R, U, B, hkl) cases, each with its own column scaling, evaluated in one call."""
     from scippneutron.conversion import tof
 
     rng = ctx.rng
-    specials = [0.0, -0.0, 5e-324, -2.2250738585072014e-308, 1.7976931348623157e308, math.inf, -math.inf, 1 / 3, math.pi]
+    sample = [cases[rng.randrange(len(cases))] for _ in range(n)]
+    exps_l = [COL_SCALINGS[rng.randrange(len(COL_SCALINGS))] for _ in range(n)]
+    Rf, Uf, Bf = [], [], []
+    for c, exps in zip(sample, exps_l):
+        mr, nr = G.quat_mat(c['qr'])
+        mu, nu = G.quat_mat(c['qu'])
+        Rf.append(np.array(mr, dtype='float64') / nr)
+        Uf.append(np.array(mu, dtype='float64') / nu)
+        Bf.append(np.array([[c['B'][r][k] * 10.0 ** exps[k] for k in range(3)] for r in range(3)]))
+    try:
+        r_var = sc.spatial.linear_transforms(dims=['peak'], values=np.array(Rf))
+        u_var = sc.spatial.linear_transforms(dims=['peak'], values=np.array(Uf))
+        b_var = sc.spatial.linear_transforms(dims=['peak'], values=np.array(Bf), unit='1/angstrom')
+        ub_var = tof.ub_matrix_from_u_and_b(u_matrix=u_var, b_matrix=b_var)
+        ubv = np.asarray(ub_var.values, dtype='float64')
+        if ubv.shape != (n, 3, 3) or not np.isfinite(ubv).all():
+            raise _NonFinite(f'ub_matrix_from_u_and_b returned shape {ubv.shape} / non-finite entries')
+        Aex = [G.matmul(_frac_mat(Rf[p]), _frac_mat(ubv[p])) for p in range(n)]
+        qf = [_q_for(Aex[p], sample[p]['h']) for p in range(n)]
+        q_var = sc.vectors(dims=['peak'], values=np.array(qf), unit='1/angstrom')
+        hkl = tof.hkl_vec_from_Q_vec(Q_vec=q_var, ub_matrix=ub_var, sample_rotation=r_var)
+        hv = np.asarray(hkl.values).reshape(-1, 3)
+        if hv.shape != (n, 3):
+            raise _NonFinite(f'hkl_vec_from_Q_vec returned {hv.shape[0]} vectors for {n} peaks')
+        parts = tof.hkl_elements_from_hkl_vec(hkl_vec=hkl)
+        split_ok = all(np.array_equal(np.ascontiguousarray(parts[nm].values).view('int64'),
+                                      np.ascontiguousarray(hv[:, a]).view('int64')) for a, nm in enumerate(('h', 'k', 'l')))
+        unit_ok = hkl.unit == sc.Unit('dimensionless') and hkl.dtype == sc.DType.vector3 and ub_var.unit == sc.Unit('1/angstrom')
+        returned = True
+    except Exception as e:  # noqa: BLE001
+        returned = False
+        ctx.violation(f'hkl kernels raised {type(e).__name__} (one matrix per peak)' if not isinstance(e, _NonFinite)
+                      else 'hkl kernels returned a malformed result (one matrix per peak)', {'exc': repr(e)})
+    for p, (c, exps) in enumerate(zip(sample, exps_l)):
+        mu, nu = G.quat_mat(c['qu'])
+        mr, nr = G.quat_mat(c['qr'])
+        ub_int = G.matmul(mu, c['B'])
+        A_int = G.matmul(mr, ub_int)
+        o = {'returned': returned, 'unit_ok': False, 'e_ub': 0, 'ub_bits_ok': returned, 'e_hkl': 0, 'split_ok': False,
+             'inputs_kept': returned}
+        if returned:
+            o['unit_ok'], o['split_ok'] = bool(unit_ok), bool(split_ok)
+            UBx = G.matmul(_frac_mat(Uf[p]), _frac_mat(Bf[p]))
+            colsum = [sum(abs(Bf[p][k][c_]) for k in range(3)) for c_ in range(3)]
+            o['e_ub'] = max(G.units_of((G.mpf(float(ubv[p][r][c_])) - G.to_mpf(UBx[r][c_])) / colsum[c_], 2.0 ** -52)
+                            for r in range(3) for c_ in range(3))
+            cond = float(np.linalg.cond(Rf[p] @ ubv[p]))
+            if cond <= 2e6:
+                o['e_hkl'] = _hkl_error(hv[p], Aex[p], tuple(Fraction(v) for v in qf[p]), cond)
+                stats['e_hkl_per_peak'] = max(stats.get('e_hkl_per_peak', 0), o['e_hkl'])
+        events.append({'ev': 'hkl', 'tid': len(events), 'qr': c['qr'], 'qu': c['qu'], 'B': c['B'], 'h': c['h'],
+                       'var': 'per_peak_arrays', 'quat_operands': False, 'extra': 0, 'use': 'first', 'q_unit': '1/angstrom',
+                       'exps': list(exps),
+                       'want': {'A': [list(r) for r in A_int], 'D': nr * nu, 'ub': [list(r) for r in ub_int],
+                                'qlab': [int(x) for x in G.matvec(A_int, c['h'])]}, 'o': o})
+        ctx.case(nontrivial_id=repr(('hkl-per-peak', p)) if returned else None)
+
+
+def _replay_graph(ctx, gcases, events, stats):
+    """The coordinate-graph route of conversion.graph: positions + wavelength + U, B, R as coordinates of a data
+    array -> transform_coords(elastic_hkl) -> Qx,Qy,Qz -> Q_vec -> ub_matrix -> hkl_vec -> h,k,l, all
+    intermediate coordinates kept and looked at.  lambda * hkl is the exact rational vector of the spec
+    (QVecDefs!HklTimesLambda); the float reference solves exactly for the rounded R and the U*B the graph
+    itself produced.  Bound: the Q fed to the inversion carries the kernel's own error (<= 16 eps k per
+    component, 28 eps k in norm), which the inverse turns into <= 28 eps |A^-1| / lambda, plus the inversion's
+    own 32 eps cond |hkl| (48 with quaternion operands): err <= 64 eps (cond |hkl| + |A^-1| / lambda)."""
+    from scippneutron.conversion.graph import beamline as gb
+    from scippneutron.conversion.graph import tof as gt
+
+    two_pi = 2 * mpmath.pi
+    groups = {}
+    for c in gcases:
+        groups.setdefault((tuple(c['qr']), tuple(c['qu']), json.dumps(c['B']), tuple(c['b1'])), []).append(c)
+    for gi, ((qr, qu, bj, b1), items) in enumerate(sorted(groups.items())):
+        B = json.loads(bj)
+        unit = 'nm' if gi % 4 == 1 else 'angstrom'
+        dtype = 'int64' if gi % 5 == 2 else 'float64'
+        var = 'rotation3' if gi % 2 else 'matrix'
+        lams = LAMS_OF[dtype, unit]
+        to_ang = 10 if unit == 'nm' else 1
+        mr, nr = G.quat_mat(qr)
+        mu, nu = G.quat_mat(qu)
+        A_int = G.matmul(mr, G.matmul(mu, B))
+        D = nr * nu
+        Rf = np.array(mr, dtype='float64') / nr
+        smp = np.array([0.5, -1.0, 2.0]) if gi % 2 else np.zeros(3)
+        b2s = np.array([c['b2'] for c in items], dtype='float64')
+        nd, nl = len(items), len(lams)
+        returned = True
+        try:
+            da = sc.DataArray(
+                sc.ones(dims=['det', 'wavelength'], shape=[nd, nl]),
+                coords={'position': sc.vectors(dims=['det'], values=smp + 2.0 * b2s, unit='m'),
+                        'sample_position': sc.vector(smp, unit='m'),
+                        'source_position': sc.vector(smp - 3.0 * np.array(b1, dtype='float64'), unit='m'),
+                        'wavelength': sc.array(dims=['wavelength'], values=np.array(lams, dtype=dtype), unit=unit, dtype=dtype),
+                        'u_matrix': _rot_var(qu, var), 'b_matrix': _mat_var(np.array(B, dtype='float64'), unit='1/angstrom'),
+                        'sample_rotation': _rot_var(qr, var)})
+            t = da.transform_coords(['hkl_vec', 'h', 'k', 'l'], graph={**gb.beamline(scatter=True), **gt.elastic_hkl('wavelength')},
+                                    keep_intermediate=True, keep_inputs=True, rename_dims=False)
+            qv = t.coords['Q_vec']
+            hk = t.coords['hkl_vec']
+            QV = np.asarray(qv.transpose(['det', 'wavelength']).values)
+            HR = np.asarray(hk.transpose(['det', 'wavelength']).values)
+            HV = np.asarray(hk.to(unit='dimensionless').transpose(['det', 'wavelength']).values)
+            ubv = np.array(t.coords['ub_matrix'].value, dtype='float64')
+            if QV.shape != (nd, nl, 3) or HV.shape != (nd, nl, 3) or not np.isfinite(ubv).all():
+                raise _NonFinite('graph results of unexpected shape / non-finite U*B')
+            split_ok = all(np.array_equal(np.ascontiguousarray(t.coords[n].transpose(['det', 'wavelength']).values).view('int64'),
+                                          np.ascontiguousarray(HR[:, :, a]).view('int64')) and t.coords[n].unit == hk.unit
+                           for a, n in enumerate(('h', 'k', 'l')))
+            elems_ok = all(np.array_equal(np.ascontiguousarray(t.coords[n].transpose(['det', 'wavelength']).values).view('int64'),
+                                          np.ascontiguousarray(QV[:, :, a]).view('int64')) for a, n in enumerate(('Qx', 'Qy', 'Qz')))
+            unit_ok = qv.unit == sc.Unit('1/' + unit) and qv.dtype == sc.DType.vector3 and hk.dtype == sc.DType.vector3
+            M = Rf @ ubv
+            sv = np.linalg.svd(M, compute_uv=False)
+            cond, inv_norm = float(sv[0] / sv[-1]), float(1.0 / sv[-1])
+            Aex = G.matmul(_frac_mat(Rf), _frac_mat(ubv))
+        except Exception as e:  # noqa: BLE001
+            returned = False
+            ctx.violation(f'coordinate graph elastic_hkl raised {type(e).__name__}' if not isinstance(e, _NonFinite)
+                          else 'coordinate graph elastic_hkl returned a malformed result',
+                          {'exc': repr(e), 'qr': qr, 'qu': qu, 'B': B, 'wavelength_unit': unit, 'dtype': dtype})
+        for i, c in enumerate(items):
+            n1, n2 = c['n1'], c['n2']
+            qdir = tuple(Fraction(a, n1) - Fraction(b, n2) for a, b in zip(b1, c['b2']))
+            mine = _solve_exact(tuple(tuple(Fraction(x, D) for x in row) for row in A_int), qdir)
+            o = {'returned': returned, 'unit_ok': False, 'e_q': 0, 'e_hkl': 0, 'split_ok': False}
+            if returned:
+                o['unit_ok'] = bool(unit_ok)
+                o['split_ok'] = bool(split_ok and elems_ok)
+                xl = _solve_exact(Aex, qdir)  # lambda[angstrom] * hkl for the float matrices used
+                for j, lam in enumerate(lams):
+                    lam_f = Fraction(lam)
+                    k = two_pi / G.to_mpf(lam_f)  # 1/unit
+                    for a in range(3):
+                        got = float(QV[i][j][a])
+                        o['e_q'] = max(o['e_q'], G.units_of((G.mpf(got) - k * G.to_mpf(qdir[a])) / k, HALF) if math.isfinite(got) else 2**30)
+                    lam_ang = G.to_mpf(lam_f * to_ang)
+                    xm = [G.to_mpf(v) / lam_ang for v in xl]
+                    nx = mpmath.sqrt(sum(v * v for v in xm))
+                    if not np.isfinite(HV[i][j]).all():
+                        o['e_hkl'] = 2**30
+                        continue
+                    err = mpmath.sqrt(sum((G.mpf(float(HV[i][j][a])) - xm[a]) ** 2 for a in range(3)))
+                    o['e_hkl'] = max(o['e_hkl'], G.units_of(err / (cond * nx + inv_norm / lam_ang), 2.0 ** -52))
+                stats['e_hkl_graph'] = max(stats.get('e_hkl_graph', 0), o['e_hkl'])
+            events.append({'ev': 'graph', 'tid': len(events), 'qr': list(qr), 'qu': list(qu), 'B': B, 'b1': list(b1), 'n1': n1,
+                           'b2': c['b2'], 'n2': n2, 'want': {'x': _rvec(mine), 'qdir': _rvec(qdir)}, 'var': var,
+                           'wl_unit': unit, 'wl_dtype': dtype, 'o': o})
+            ctx.case(nontrivial_id=repr(('graph', qr, qu, bj, b1, tuple(c['b2']))) if returned else None)
+
+
+def _replay_split(ctx, events, n):
+    """Splitting into components and reassembling is lossless: bit patterns (signed zeros, NaN payloads,
+    subnormals, infinities), unit (also a scaled 'dimensionless' such as angstrom/nm) and shape, for 0-d, 1-d,
+    strided, 2-d and transposed 2-d operands."""
+    from scippneutron.conversion import tof
+
+    rng = ctx.rng
+    nan_payload = float(np.array([0x7ff8000000000123], dtype='uint64').view('float64')[0])
+    neg_nan = float(np.array([0xfff8000000000001], dtype='uint64').view('float64')[0])
+    specials = [0.0, -0.0, 5e-324, -2.2250738585072014e-308, 1.7976931348623157e308, math.inf, -math.inf, 1 / 3, math.pi,
+                nan_payload, neg_nan]
+    units = ('1/angstrom', 'dimensionless', 'angstrom/nm')
     for t in range(n):
         m = rng.choice([1, 2, 7, 64])
         vals = np.array([[rng.choice(specials) if rng.random() < 0.3 else rng.uniform(-1, 1) * 10.0 ** rng.uniform(-300, 300)
                           for _ in range(3)] for _ in range(m)])
+        unit = units[t % 3]
+        kind = ('scalar', 'flat', 'flat', 'strided', 'grid', 'grid_transposed')[t % 6]
         try:
-            if t % 4 == 0:
-                v = sc.vector(vals[0], unit='1/angstrom')
-                vv = vals[:1]
+            if kind == 'scalar':
+                v, vv, dims = sc.vector(vals[0], unit=unit), vals[:1], []
+            elif kind == 'flat':
+                v, vv, dims = sc.vectors(dims=['p'], values=vals, unit=unit), vals, ['p']
+            elif kind == 'strided':
+                big = np.full((m, 2, 3), 7.25)
+                big[:, 0, :] = vals
+                v, vv, dims = sc.vectors(dims=['p', 'lane'], values=big, unit=unit)['lane', 0], vals, ['p']
             else:
-                v = sc.vectors(dims=['p'], values=vals, unit='1/angstrom')
-                vv = vals
+                g = np.concatenate([vals, vals[::-1]]).reshape(2, m, 3)
+                v, vv, dims = sc.vectors(dims=['a', 'p'], values=g, unit=unit), g.reshape(-1, 3), ['a', 'p']
+                if kind == 'grid_transposed':
+                    v = v.transpose(['p', 'a'])  # a non-contiguous view with the dims in the other order
+            before = _bits(v)
             parts = tof.hkl_elements_from_hkl_vec(hkl_vec=v)
             back = tof.Q_vec_from_Q_elements(Qx=parts['h'], Qy=parts['k'], Qz=parts['l'])
-            got = np.asarray(back.values).reshape(-1, 3)
-            ok = np.array_equal(np.ascontiguousarray(got).view('int64'), np.ascontiguousarray(vv).view('int64'))
-            ok = ok and all(np.array_equal(np.atleast_1d(parts[nm].values).view('int64'), np.ascontiguousarray(vv[:, a]).view('int64'))
+
+            def flat(x, vec):
+                x = x.transpose(dims) if len(dims) > 1 else x
+                a = np.ascontiguousarray(np.asarray(x.values))
+                return a.reshape(-1, 3) if vec else a.reshape(-1)
+
+            if set(back.dims) != set(dims) or any(set(parts[nm].dims) != set(dims) for nm in 'hkl'):
+                raise _NonFinite(f'split / reassembly changed the dims: {back.dims}')
+            got = flat(back, True)
+            ok = got.shape == vv.shape and np.array_equal(got.view('int64'), np.ascontiguousarray(vv).view('int64'))
+            ok = ok and all(np.array_equal(flat(parts[nm], False).view('int64'), np.ascontiguousarray(vv[:, a]).view('int64'))
                             for a, nm in enumerate(('h', 'k', 'l')))
-            ok = ok and back.unit == v.unit and back.dtype == sc.DType.vector3
-            events.append({'ev': 'split', 'tid': len(events), 'n': int(len(vv)), 'returned': True, 'bits_ok': bool(ok)})
+            ok = ok and back.unit == v.unit and back.dtype == sc.DType.vector3 and all(parts[nm].unit == v.unit for nm in 'hkl')
+            ok = ok and before == _bits(v)
+            events.append({'ev': 'split', 'tid': len(events), 'n': int(len(vv)), 'returned': True, 'bits_ok': bool(ok),
+                           'kind': kind, 'unit': unit})
         except Exception as e:  # noqa: BLE001
-            ctx.violation(f'split/reassemble raised {type(e).__name__}', {'exc': repr(e)})
-            events.append({'ev': 'split', 'tid': len(events), 'n': int(m), 'returned': False, 'bits_ok': False})
+            ctx.violation(f'split/reassemble raised {type(e).__name__}' if not isinstance(e, _NonFinite)
+                          else 'split/reassemble returned other dims', {'exc': repr(e), 'kind': kind, 'unit': unit})
+            events.append({'ev': 'split', 'tid': len(events), 'n': int(m), 'returned': False, 'bits_ok': False,
+                           'kind': kind, 'unit': unit})
         ctx.case(nontrivial_id=repr(('split', t)))
 
 
 def _key(ev, clause):
+    second = '' if ev.get('use', 'first') == 'first' else ' [second use]'
     if ev['ev'] == 'q':
-        return f'Q vector: {clause}'
+        default = ev['form'] == Q_FORMS[0]
+        return f'Q vector: {clause}' + ('' if default else ' [non-default operand form]') + second
     if ev['ev'] == 'hkl':
-        return f'hkl ({ev["var"]} rotation operands): {clause}'
+        if ev['var'] == 'per_peak_arrays':
+            return f'hkl (one R, U, B per peak): {clause}'
+        if ev['var'] == 'same_ub_other_rotation':
+            return f'hkl (same UB again with another sample rotation): {clause}'
+        scaled = '' if ev['q_unit'] == '1/angstrom' else ' [Q in 1/nm, B in 1/angstrom]'
+        return f'hkl ({ev["var"]} rotation operands): {clause}' + scaled + second
+    if ev['ev'] == 'graph':
+        return f'coordinate graph elastic_hkl: {clause}'
     return f'{ev["ev"]}: {clause}'
 
 
@@ -358,7 +719,8 @@ def run(ctx):
                   timeout=2400)
     require_ok(ctx, res, 'QVecHkl model')
     for mod, neg in (('MC_QVec', 'Neg_QVec_unnormalised'), ('MC_QVec', 'Neg_QVec_kf_minus_ki'),
-                     ('MC_QVecHkl', 'Neg_QVecHkl_order'), ('MC_QVecHkl', 'Neg_QVecHkl_no_rotation')):
+                     ('MC_QVecHkl', 'Neg_QVecHkl_order'), ('MC_QVecHkl', 'Neg_QVecHkl_no_rotation'),
+                     ('MC_QVecHkl', 'Neg_QVecHkl_stale_rotation')):
         ctx.tlc(f'conv/{mod}.tla', f'{neg}.cfg', workers=WORKERS, expect_error=True, timeout=300)
 
     # ---- 2. cases
@@ -372,13 +734,19 @@ def run(ctx):
         raise MachineryError(f'case export incomplete: {tag} vs {len(recs)}')
     qcases = [r for r in recs if r['kind'] == 'q']
     hcases = [r for r in recs if r['kind'] == 'hkl']
-    ctx.extra['cases_exported'] = {'q': len(qcases), 'hkl': len(hcases)}
+    gcases = [r for r in recs if r['kind'] == 'graph']
+    ctx.extra['cases_exported'] = {'q': len(qcases), 'hkl': len(hcases), 'graph': len(gcases)}
 
     events, stats = [], {}
-    _replay_q(ctx, qcases, events, stats)
+    n_qgroups = _replay_q(ctx, qcases, events, stats)
     nq = len(events)
-    _replay_hkl(ctx, hcases, events, stats, thorough)
-    _replay_split(ctx, events, 400 if thorough else 100)
+    n_hgroups = _replay_hkl(ctx, hcases, events, stats, thorough)
+    _replay_hkl_arrays(ctx, hcases, events, stats, 1200 if thorough else 300)
+    _replay_graph(ctx, gcases, events, stats)
+    _replay_split(ctx, events, 480 if thorough else 120)
+    # second use (HARDENING item 6): a sample of this run's own groups once more, in reverse order
+    _replay_hkl(ctx, hcases, events, stats, thorough, only_groups=list(range(n_hgroups - 1, -1, -9)), use='again')
+    _replay_q(ctx, qcases, events, stats, only_groups=list(range(n_qgroups - 1, -1, -7)), use='again')
     ctx.extra['worst_errors_in_units'] = stats
     ctx.extra['tolerances_in_units'] = {'e_q/e_len/e_rot': 32, 'e_norm/e_scal': 48, 'e_cov': 96, 'e_hkl': '32 (48 rotation3)',
                                         'e_ub': 16}
@@ -397,7 +765,7 @@ def run(ctx):
     for rej in tr.tagged('REJECT'):
         _, line, _tid, clause = rej
         ev = events[line - 1]
-        if clause.startswith('harness_') or clause in ('invalid_case', 'unknown_event', 'cramer_solution_is_not_hkl'):
+        if clause.startswith('harness_') or clause in ('invalid_case', 'unknown_event', 'cramer_solution_is_not_hkl', 'unknown_form'):
             raise MachineryError(f'harness and specification disagree ({clause}) on event {ev}')
         ctx.violation(_key(ev, clause), {'event': ev})
 
